@@ -36,6 +36,9 @@ static int trace_fd = 1;
 static atomic_ullong trace_seq;
 static uint64_t t0_us;
 static uint64_t now_us(void) { struct timespec ts; clock_gettime(CLOCK_MONOTONIC, &ts); return (uint64_t)ts.tv_sec * 1000000ULL + ts.tv_nsec / 1000; }
+#ifndef VF_TRACE_LIMIT
+#define VF_TRACE_LIMIT 400000
+#endif
 static void tr(const char *fmt, ...) __attribute__((format(printf, 1, 2)));
 static void tr(const char *fmt, ...) {
     char buf[1024];
@@ -46,11 +49,20 @@ static void tr(const char *fmt, ...) {
     if (n > (int)sizeof(buf) - 2) n = sizeof(buf) - 2;
     buf[n++] = '\n';
     ssize_t w = write(trace_fd, buf, n); (void)w;
-    atomic_fetch_add(&trace_seq, 1);
+    /* a run-away execution (e.g. a callback re-entering the loop for ever) keeps the progress watchdog quiet and would write
+     * gigabytes: ten times the longest trace any scenario legitimately produces is treated like the watchdog firing */
+    if (atomic_fetch_add(&trace_seq, 1) + 1 > VF_TRACE_LIMIT) {
+        static const char m[] = "0 W trace-limit\n";
+        w = write(trace_fd, m, sizeof(m) - 1); (void)w;
+        _exit(3);
+    }
 }
 static void die(const char *msg) { tr("! harness %s", msg); _exit(2); }
 static void fail_hook(const char *key, const char *msg) { tr("A %s | %s", key, msg); }
 static bool ctx_ever;
+/* where watched directories / scratch files are made: the runner gives a directory of its own and removes it afterwards (a
+ * scenario that crashes cannot clean up after itself) */
+static const char *scratch_dir(void) { const char *d = getenv("VF_SCRATCH"); return (d && *d && strlen(d) < 90) ? d : "/tmp"; }
 
 /* ------------------------------------------------------------------ scenario */
 enum {
@@ -519,7 +531,7 @@ static long long do_op(op_t *o) {
         in_harness_io++;
         if (a[1] == 1) { u->rd = u->wr = __real_eventfd(0, EFD_NONBLOCK); u->kind = 1; }
         else if (a[1] == 2) {   /* a regular file: valid descriptor that the poll layer refuses */
-            char f[64]; snprintf(f, sizeof(f), "/tmp/vfce_file_%d_%lld", getpid(), a[0]);
+            char f[200]; snprintf(f, sizeof(f), "%s/vfce_file_%d_%lld", scratch_dir(), getpid(), a[0]);
             int fd = open(f, O_CREAT | O_RDWR, 0600); unlink(f);
             if (fd < 0) { ret = -errno; in_harness_io--; break; }
             u->rd = u->wr = fd; u->kind = 2; }
@@ -667,7 +679,7 @@ static void parse(FILE *f) {
             topics[idx] = strdup(t); if (idx >= ntopics) ntopics = idx + 1;
         } else if (strcmp(w, "path") == 0) {
             int idx; if (sscanf(rest, "%d", &idx) != 1 || idx < 0 || idx >= MAXPATH) die("bad path line");
-            snprintf(paths[idx], sizeof(paths[idx]), "/tmp/vfce_%d_%d", getpid(), idx); mkdir(paths[idx], 0700); if (idx >= npaths) npaths = idx + 1;
+            snprintf(paths[idx], sizeof(paths[idx]), "%s/vfce_%d_%d", scratch_dir(), getpid(), idx); mkdir(paths[idx], 0700); if (idx >= npaths) npaths = idx + 1;
         } else if (strcmp(w, "script") == 0) {
             char kind[16];
             if (sscanf(rest, "%15s", kind) != 1) die("bad script line");
